@@ -25,6 +25,9 @@ HASHED = {"board", "to_move", "pawn_double_move"} | set(FLAG_VARIANT)
 PRODUCER_ROOTS = ("uci::play_out_position", "move_generation::generate_moves")
 
 
+from wa.cond import canon
+
+
 def xor_terms(e):
     """Flatten a BitXor tree into its leaves."""
     if e[0] == "bin" and e[1] == "BitXor":
@@ -136,6 +139,11 @@ class Events:
                 self.writes.append((loc, root, pr[0]["name"], None, newv))
 
 
+def _same_sq(pt, idx):
+    """(row, col) expressions equal up to reference / dereference nodes."""
+    return len(idx) == 2 and canon(pt[0]) == canon(idx[0]) and canon(pt[1]) == canon(idx[1])
+
+
 def control_equivalent(b, x, y):
     if x == y:
         return True
@@ -230,6 +238,7 @@ def r5_2(ctx):
     """R5.2 + R5.3 on every function of the producers' cones except the helpers and from_fen."""
     f = ctx.facts
     nw = nx = 0
+    deferred_w, deferred_x = [], []
     for fn in _scope(f):
         b = f.body(fn)
         ev = Events(b)
@@ -267,7 +276,7 @@ def r5_2(ctx):
                     continue
                 if is_empty:
                     got = []
-                    x = find_term(root, loc, lambda t: t[0] == "piece" and point_of(t[2]) == (idx[0], idx[1]) and (got.append(t) or True))
+                    x = find_term(root, loc, lambda t: t[0] == "piece" and _same_sq(point_of(t[2]), idx) and (got.append(t) or True))
                     if x is not None:
                         okp, whyp = removed_piece_ok(f, b, ex, loc, idx, got[-1][1])
                         ctx.ob(key + ":piece", okp, b.where(x),
@@ -278,13 +287,17 @@ def r5_2(ctx):
                                                                 "no XOR of a piece at the same square in the same control region: key and placement drift apart"))
                 elif is_full:
                     q = v[3][0]
-                    x1 = find_term(root, loc, lambda t: t[0] == "piece" and strip_refs(t[1]) == strip_refs(q) and point_of(t[2]) == (idx[0], idx[1]))
+                    x1 = find_term(root, loc, lambda t: t[0] == "piece" and canon(t[1]) == canon(q) and _same_sq(point_of(t[2]), idx))
                     x2 = find_term(root, loc, lambda t: t[0] == "piece" and strip_refs(t[1])[0] == "call" and strip_refs(t[1])[1] == "board::Piece::pawn"
-                                   and point_of(t[2]) == (idx[0], idx[1]))
-                    ctx.ob(key, x1 is not None and x2 is not None, b.where(loc),
-                           "`%s` replaces the pawn on (%s, %s) by %s: needs XOR of the new piece (%s) and of the pawn (%s) at that square" % (
-                               b.text_at(loc)[:60], show_expr(idx[0], b), show_expr(idx[1], b), show_expr(q, b)[:40],
-                               "found" if x1 else "MISSING", "found" if x2 else "MISSING"))
+                                   and _same_sq(point_of(t[2]), idx))
+                    msg = "`%s` replaces the pawn on (%s, %s) by %s: needs XOR of the new piece (%s) and of the pawn (%s) at that square" % (
+                        b.text_at(loc)[:60], show_expr(idx[0], b), show_expr(idx[1], b), show_expr(q, b)[:40],
+                        "found" if x1 else "MISSING", "found" if x2 else "MISSING")
+                    if x1 is not None and x2 is None and "::{closure#" in fn:
+                        # the other half may have been done on the template this object is a copy of (see below)
+                        deferred_w.append((fn, key, loc, root, idx, msg))
+                    else:
+                        ctx.ob(key, x1 is not None and x2 is not None, b.where(loc), msg)
                 else:
                     ctx.ob(key, False, b.where(loc), "square written with a value that is neither Empty nor Full(..): %s" % show_expr(v, b)[:60],
                            reason="shape-not-recognised")
@@ -316,12 +329,108 @@ def r5_2(ctx):
                 continue
             for ti, t in enumerate(terms):
                 if (xi, ti) not in used:
-                    ctx.ob("%s:X(%s):orphan:%s#%d.%d" % (short, b.lname(xroot[1]), t[0], xi, ti), False, b.where(xloc),
-                           "XOR term `%s` has no matching state change in the same control region (doubled or stray update)" % (
-                               t[0] + "(" + ", ".join(show_expr(a, b)[:40] for a in t[1:] if isinstance(a, tuple)) + ")"))
+                    deferred_x.append((fn, "%s:X(%s):orphan:%s#%d.%d" % (short, b.lname(xroot[1]), t[0], xi, ti), xloc, xroot, t,
+                                       "XOR term `%s` has no matching state change in the same control region (doubled or stray update)" % (
+                                           t[0] + "(" + ", ".join(show_expr(a, b)[:40] for a in t[1:] if isinstance(a, tuple)) + ")")))
+    # A successor finished inside a closure from a template prepared by the enclosing function
+    # (`let mut tpl = board.clone(); tpl.key ^= pawn@sq; v.extend(KINDS.iter().map(|k| { let mut nb = tpl.clone();
+    # nb.board[sq] = Full(p); nb.key ^= p@sq; nb }))`): the copy inherits the template's pending XOR.  The template
+    # must be a local that is only borrowed (never handed on by value, so never a successor itself), the XOR must
+    # precede the closure, and the square must be the same one after translating the closure's captures.
+    for (cfn, key, loc, root, idx, msg) in list(deferred_w):
+        hit = _template_term(f, cfn, root, idx, deferred_x)
+        if hit is not None:
+            deferred_x.remove(hit)
+            deferred_w.remove((cfn, key, loc, root, idx, msg))
+            ctx.ob(key, True, f.body(cfn).where(loc), "the pawn was XORed out on the template this successor is a copy of (%s)" % f.body(hit[0]).where(hit[2]))
+    for (cfn, key, loc, root, idx, msg) in deferred_w:
+        ctx.ob(key, False, f.body(cfn).where(loc), msg)
+    for (xfn, key, xloc, xroot, t, msg) in deferred_x:
+        ctx.ob(key, False, f.body(xfn).where(xloc), msg)
     ctx.info["raw_writes"] = nw
     ctx.floor("raw writes of hashed components outside helpers", nw, 3)
     ctx.floor("XOR statements outside helpers", nx, 3)
+
+
+def _template_term(f, cfn, root, idx, orphans):
+    """For a raw Full write on object `root` inside closure `cfn`: the orphan XOR term (from `orphans`) of the
+    enclosing function that removes a pawn at the same square from the template `root` was cloned from."""
+    from wa.mir import alias_of
+    if "::{closure#" not in cfn or root[0] != "local":
+        return None
+    pfn = cfn[:cfn.index("::{closure#")]
+    if not f.has_body(pfn):
+        return None
+    cb, pb = f.body(cfn), f.body(pfn)
+    cex, pex = Exprs(cb), Exprs(pb)
+    # the closure's captures, as expressions of the enclosing function
+    caps = None
+    cloc = None
+    for loc, st in pb.iter_stmts():
+        if st["k"] == "assign" and st["rv"]["k"] == "aggregate" and st["rv"].get("agg") == "closure" and st["rv"].get("closure") == cfn:
+            caps = pex.rvalue(st["rv"], loc)[3]
+            cloc = loc
+    if caps is None:
+        return None
+
+    def tr(e):
+        """closure expression -> enclosing function's expression (None if it uses something not captured)"""
+        if not isinstance(e, tuple):
+            return e
+        if e[0] == "field" and isinstance(e[1], tuple) and e[1][0] in ("mem", "deref", "arg"):
+            base = e[1]
+            if base[0] == "deref":
+                base = base[1]
+            if (base[0] == "mem" and base[1] == 1) or base == ("arg", 1):
+                try:
+                    return caps[int(e[2])]
+                except (ValueError, IndexError):
+                    return None
+        if e[0] in ("arg", "var", "mem"):
+            return None
+        out = []
+        for x in e:
+            y = tr(x) if isinstance(x, tuple) else x
+            if isinstance(x, tuple) and y is None:
+                return None
+            out.append(y)
+        return tuple(out)
+    # the object written is a clone of a captured template
+    src = None
+    for bb, t in cb.iter_calls():
+        if (callee_of(t) or "").endswith("BoardState as std::clone::Clone>::clone") and not t["dest"]["proj"]:
+            chain_ok = t["dest"]["local"] == root[1] or alias_of(cb, root[1])[0] == t["dest"]["local"]
+            if chain_ok:
+                a = tr(cex.call_args(bb)[0])
+                if a is not None:
+                    a = strip_refs(a)
+                    if a[0] == "var" and pb.local_ty(a[1]) == BS:
+                        src = a[1]
+    if src is None:
+        return None
+    # the template is only ever borrowed in the enclosing function
+    for bb, t in pb.iter_calls():
+        for a in t["args"]:
+            if a.get("k") == "move" and not a["place"]["proj"] and alias_of(pb, a["place"]["local"])[0] == src and alias_of(pb, a["place"]["local"])[1] == "val":
+                return None
+    tidx = tuple(tr(i) for i in idx)
+    if any(i is None for i in tidx):
+        return None
+    tidx = tuple(strip_refs(i) if i[0] in ("ref", "deref") else i for i in tidx)
+    for o in orphans:
+        xfn, key, xloc, xroot, t, msg = o
+        if xfn != pfn or xroot != ("local", src) or t[0] != "piece":
+            continue
+        pe = strip_refs(t[1])
+        if not (pe[0] == "call" and pe[1] == "board::Piece::pawn"):
+            continue
+        pr, pc = point_of(t[2])
+        if (canon(pr), canon(pc)) != (canon(tidx[0]), canon(tidx[1])):
+            continue
+        if not (pb.node_dominates(xloc[0], cloc[0])):
+            continue
+        return o
+    return None
 
 
 def r5_positive_control(ctx):
@@ -1018,3 +1127,85 @@ def r5_5(ctx):
     seeds = [ex.call_args(bb) for bb, t in b.iter_calls() if (callee_of(t) or "").endswith("seed_from_u64")]
     ok = len(seeds) == 1 and seeds[0][0][0] == "const"
     ctx.ob("create_zobrist_hasher:constant-seed", ok, b.where((0, 0)), "seed: %s" % ([show_expr(s[0], b) for s in seeds]))
+
+
+# ---- R5.6 frame conditions of the hashing helpers ----------------------------------------------------
+FRAME = {
+    SWAP: {"to_move", "zobrist_key"},
+    UNSET: {"pawn_double_move", "zobrist_key"},
+    MOVE: {"board", "zobrist_key"},
+    TAKE: set(FLAG_VARIANT) | {"zobrist_key"},
+}
+
+
+def _fields_written(f, fn, depth=0, seen=None):
+    """Fields of the BoardState behind `&mut self` that `fn` can write: direct stores, stores through
+    pointers derived from self, std mutators on `&mut self.field`, and whatever a crate-local callee that
+    is handed `self` (or a field of it) mutably writes."""
+    from wa.mir import alias_of
+    seen = seen if seen is not None else set()
+    if fn in seen or depth > 3 or not f.has_body(fn):
+        return set()
+    seen.add(fn)
+    b = f.body(fn)
+    selfp = [i for i in range(1, b.arg_count + 1) if b.local_ty(i) == "&mut " + BS]
+    if len(selfp) != 1:
+        return {"?"}
+    sp = selfp[0]
+    out = set()
+    for loc, st in b.iter_stmts():
+        if st["k"] != "assign":
+            continue
+        root, proj = place_root(b, st["place"])
+        if root == ("ptr", sp) and proj and proj[0]["k"] == "field":
+            out.add(proj[0]["name"])
+        elif root == ("ptr", sp) and not proj:
+            out.add("*")
+        elif root is None and st["place"]["proj"] and st["place"]["proj"][0]["k"] == "deref" and b.local_ty(st["place"]["local"]).startswith("&mut ") \
+                and st["place"]["local"] > b.arg_count:
+            # a store through a pointer whose target is chosen at run time (`let flag = match t { A => &mut self.a, .. };
+            # *flag = false`): it can reach any field of the pointee's type
+            pty = b.local_ty(st["place"]["local"])[len("&mut "):]
+            try:
+                same = [fl for fl in f.struct_fields(BS) if f.struct_field_ty(BS, fl) == pty]
+            except Exception:
+                same = []
+            out |= set(same) if same else {"?"}
+    for bb, t in b.iter_calls():
+        c = callee_of(t) or ""
+        for i, a in enumerate(t["args"]):
+            if a.get("k") not in ("copy", "move") or a["place"]["proj"]:
+                continue
+            aty = t["arg_tys"][i] if i < len(t.get("arg_tys", [])) else b.local_ty(a["place"]["local"])
+            if not aty.startswith("&mut "):
+                continue
+            r, mode, pr = alias_of(b, a["place"]["local"])
+            if r != sp:
+                continue
+            if mode == "val" and not pr:
+                # self handed on
+                if f.has_body(c):
+                    out |= _fields_written(f, c, depth + 1, seen)
+                else:
+                    out.add("*")
+            elif mode == "ptrref" and pr and pr[0]["k"] == "field":
+                out.add(pr[0]["name"])
+    return out
+
+
+def r5_6(ctx):
+    """Each hashing helper changes its own component and the key, nothing else: a helper that also
+    rewrites another field (the move descriptor, the en-passant target, ..) silently undoes what its
+    callers set before calling it - each caller looks right on its own."""
+    f = ctx.facts
+    n = 0
+    for fn, allowed in sorted(FRAME.items()):
+        if not f.has_body(fn):
+            raise AnchorMissing(fn)
+        ctx.note_fn(fn)
+        w = _fields_written(f, fn)
+        n += 1
+        extra = sorted(w - allowed)
+        ctx.ob("%s:writes-only-its-component" % fn.split("::")[-1], not extra, f.body(fn).where((0, 0)),
+               "writes %s; allowed %s%s" % (sorted(w), sorted(allowed), "" if not extra else ": also writes %s, which its callers set themselves (before or after the call) - the order of calls now decides the result" % extra))
+    ctx.floor("helper frames", n, 4)
